@@ -1,6 +1,8 @@
 """C12, second half: with real calculators on a real (random Hermitian) model, the parallel branch of run() driven by a
 schedule-controlled ray double (random completion orders, both ray.wait answer policies) must return the same
 integrated values, grid tabulations and path tabulations (in path order) as the serial branch."""
+import os
+import shutil
 import sys
 import numpy as np
 
@@ -29,6 +31,15 @@ def random_system(rng, nw=3):
     return s
 
 
+
+def _fout():
+    """prefix of the files run() writes (scratch under /verif/.work, removed by the caller of check())"""
+    from ..common import WORK
+    d = os.path.join(WORK, "c12_par_tab")
+    os.makedirs(d, exist_ok=True)
+    return os.path.join(d, "r")
+
+
 def run_with(system, grid, calcs, parallel, rng, ncpu, first_n, **kw):
     events = []
     saved = sys.modules.get("ray")
@@ -44,7 +55,7 @@ def run_with(system, grid, calcs, parallel, rng, ncpu, first_n, **kw):
         RG.process = pw
     try:
         with quiet():
-            res = wb.run(system, grid, calcs, parallel=parallel, fout_name="/tmp/_verif_c12", print_progress_step_time=1e9, **kw)
+            res = wb.run(system, grid, calcs, parallel=parallel, fout_name=_fout(), print_progress_step_time=1e9, **kw)
     finally:
         RG.process = orig
         if fake is not None:
@@ -137,8 +148,8 @@ def real_ray_smoke(rep):
         with quiet():
             grid = wb.Grid(system, NKdiv=[3, 3, 2], NKFFT=[2, 2, 2])
             cs = lambda: {"dos": calc.static.DOS(Efermi=Ef), "ahc": calc.static.AHC(Efermi=Ef)}
-            rs = wb.run(system, grid, cs(), parallel=False, adpt_num_iter=1, use_irred_kpt=False, symmetrize=False, fout_name="/tmp/_verif_c12")
-            rp = wb.run(system, grid, cs(), parallel=True, adpt_num_iter=1, use_irred_kpt=False, symmetrize=False, fout_name="/tmp/_verif_c12")
+            rs = wb.run(system, grid, cs(), parallel=False, adpt_num_iter=1, use_irred_kpt=False, symmetrize=False, fout_name=_fout())
+            rp = wb.run(system, grid, cs(), parallel=True, adpt_num_iter=1, use_irred_kpt=False, symmetrize=False, fout_name=_fout())
         for k in ("dos", "ahc"):
             d = maxdiff(rs.results[k].data, rp.results[k].data)
             rep.case(("realray", k))
